@@ -553,6 +553,39 @@ func c14Cache(c *Ctx) {
 	}
 	c.Check(okKey, "C14-R3", "processJob:key is query.CacheKey()", getCall.Pos(), "CacheKey()", "cache key is not the query's CacheKey()")
 
+	// staleness bookkeeping: a time field whose age gc() tests (now.Sub(ce.F)) is stamped with c.now() when the entry is stored
+	if gc := c.MustFunc("C14-R3", "internal/promapi.queryCache.gc"); gc != nil {
+		ginfo := gc.Pkg.TypesInfo
+		aged := map[string]bool{}
+		ast.Inspect(gc.Decl.Body, func(n ast.Node) bool {
+			call, ok := n.(*ast.CallExpr)
+			if !ok || len(call.Args) != 1 {
+				return true
+			}
+			if sel, ok := call.Fun.(*ast.SelectorExpr); ok && sel.Sel.Name == "Sub" {
+				if fs, ok := call.Args[0].(*ast.SelectorExpr); ok && fieldOwner(ginfo, fs) == "internal/promapi.cacheEntry" {
+					aged[fs.Sel.Name] = true
+				}
+			}
+			return true
+		})
+		set := p.Func("internal/promapi.queryCache.set")
+		for _, f := range sortedKeys(aged) {
+			ok := false
+			if set != nil {
+				for _, cl := range compositeLits(ginfo, set.Decl.Body, "internal/promapi.cacheEntry") {
+					if v := litField(cl, f); v != nil {
+						if call, isCall := v.(*ast.CallExpr); isCall && fieldSel(ginfo, call.Fun, "internal/promapi.queryCache", "now") {
+							ok = true
+						}
+					}
+				}
+			}
+			c.Check(ok, "C14-R3", "queryCache.set:stamps "+f+" with now()", gc.Decl.Pos(), "fresh entries are not stale", "gc() evicts entries whose "+f+" is older than maxStale, but set() does not stamp "+f+" with the current time: a freshly stored answer is evicted at the next clean-up instead of being reused for its lifetime")
+		}
+		c.Check(len(aged) >= 1, "C14-R3", "queryCache.gc:age test found", gc.Decl.Pos(), itoa(len(aged))+" aged field(s)", "no now.Sub(entry.field) staleness test found")
+	}
+
 	// CacheKey coverage
 	qt := p.LookupType("internal/promapi", "querier")
 	if qt == nil {
